@@ -131,6 +131,8 @@ pub enum ServerOut {
 /// Everything observed about one request/response exchange.
 #[derive(Clone, Debug)]
 pub struct Exchange {
+    /// encodings registered with the server runtime that handled this exchange: (JSON, Smile)
+    pub registered: (bool, bool),
     pub call: u32,
     pub client_endpoint: Option<(String, String)>,
     pub sent: WireReq,
@@ -157,6 +159,8 @@ pub struct Shared {
     pub handler: crate::glue::Handler,
     pub exchanges: Mutex<Vec<Exchange>>,
     pub next_body_id: Mutex<u32>,
+    /// which encodings the server runtime was built with: (JSON, Smile)
+    pub registered: (bool, bool),
 }
 
 /// Per-call handle: shared state plus this call's fault plan.
@@ -394,6 +398,7 @@ impl SimTransport {
 
     fn new_exchange(&self, sent: WireReq, client_endpoint: Option<(String, String)>) -> Exchange {
         Exchange {
+            registered: self.sh.registered,
             call: self.call,
             client_endpoint,
             wire: sent.clone(),
